@@ -1634,6 +1634,7 @@ impl UntypedPattern {
             PatternEnum::NumUnsigned(n, suffix) => {
                 if let Some(ty) = &ty {
                     expect_num_type(ty, meta)?;
+                    expect_pattern_in_range(ty, *n as i128, *n as i128, meta)?;
                     PatternEnum::NumUnsigned(*n, *suffix)
                 } else {
                     return Err(vec![None]);
@@ -1642,6 +1643,7 @@ impl UntypedPattern {
             PatternEnum::NumSigned(n, suffix) => {
                 if let Some(ty) = &ty {
                     expect_signed_num_type(ty, meta)?;
+                    expect_pattern_in_range(ty, *n as i128, *n as i128, meta)?;
                     PatternEnum::NumSigned(*n, *suffix)
                 } else {
                     return Err(vec![None]);
@@ -1650,6 +1652,7 @@ impl UntypedPattern {
             PatternEnum::UnsignedInclusiveRange(from, to, suffix) => {
                 if let Some(ty) = &ty {
                     expect_num_type(ty, meta)?;
+                    expect_pattern_in_range(ty, *from as i128, *to as i128, meta)?;
                     PatternEnum::UnsignedInclusiveRange(*from, *to, *suffix)
                 } else {
                     return Err(vec![None]);
@@ -1658,6 +1661,7 @@ impl UntypedPattern {
             PatternEnum::SignedInclusiveRange(from, to, suffix) => {
                 if let Some(ty) = &ty {
                     expect_signed_num_type(ty, meta)?;
+                    expect_pattern_in_range(ty, *from as i128, *to as i128, meta)?;
                     PatternEnum::SignedInclusiveRange(*from, *to, *suffix)
                 } else {
                     return Err(vec![None]);
@@ -2365,6 +2369,28 @@ fn expect_signed_num_type(ty: &Type, meta: MetaInfo) -> Result<(), TypeErrors> {
             meta,
         ))]),
     }
+}
+
+/// Checks that the bounds of a number / range pattern are values of the matched number type.
+fn expect_pattern_in_range(
+    ty: &Type,
+    from: i128,
+    to: i128,
+    meta: MetaInfo,
+) -> Result<(), TypeErrors> {
+    let (min, max) = match ty {
+        Type::Unsigned(ty) => (0, ty.max().unwrap_or(u32::MAX as u64) as i128),
+        Type::Signed(ty) => (
+            ty.min().unwrap_or(i32::MIN as i64) as i128,
+            ty.max().unwrap_or(i32::MAX as i64) as i128,
+        ),
+        _ => return Ok(()),
+    };
+    if from < min || from > max || to < min || to > max {
+        let e = TypeErrorEnum::PatternDoesNotMatchType(ty.clone());
+        return Err(vec![Some(TypeError::new(e, meta))]);
+    }
+    Ok(())
 }
 
 fn expect_bool_or_num_type(ty: &Type, meta: MetaInfo) -> Result<(), TypeErrors> {
